@@ -258,8 +258,14 @@ func (ms *Modules) FindModuleByNamespace(ns string) (*Module, error) {
 			switch {
 			case m == found:
 			case found != nil:
+				// Name the two in a fixed order, not in the order
+				// of map iteration.
+				a, b := found.Name, m.Name
+				if b < a {
+					a, b = b, a
+				}
 				return nil, fmt.Errorf("namespace %s matches two or more modules (%s, %s)",
-					ns, found.Name, m.Name)
+					ns, a, b)
 			default:
 				found = m
 			}
